@@ -94,7 +94,7 @@ def register(gen):
                 w.end()
             return Case(w.getvalue(), c["ftype"], model.dump(c["ftype"] == "o5c", opts, boxes, objs), nt=True)
 
-        def plan(self, tier):
+        def rows(self, tier):
             hi = 12 if tier == "quick" else 40
             for pre, last, end, ft in itertools.product(self.dim("pre").values, self.dim("last").values, self.dim("end").values, self.dim("ftype").values):
                 if ft == "o5c" and tier == "quick" and (pre, last) != ("none", "node"):
@@ -109,7 +109,9 @@ def register(gen):
         NS = [3, 1, 2, 14999, 15000, 15001, 15002, 29999, 30000, 30001, 45005]
 
         def __init__(self):
-            self.dims = [Dim("n", self.NS), Dim("ref", ["1", "2", "oldest", "oldest-1", "mid"]), Dim("kind", ["tag", "user", "role"])]
+            self.dims = [Dim("n", [3], kind="range"), Dim("ref", ["1", "2", "oldest", "oldest-1", "mid"]), Dim("kind", ["tag", "user", "role"])]
+            self.dim("n").lo, self.dim("n").hi = 1, 60000
+            self.dim("n").classify = lambda v: "table-wrapped-around" if int(v) >= enc_o5m.TABLE_SIZE else "table-not-yet-full"
 
         def build(self, c):
             c = self.full(c)
@@ -151,7 +153,7 @@ def register(gen):
             w.end()
             return Case(w.getvalue(), "o5m", model.dump(False, {}, [], objs), nt=True)
 
-        def plan(self, tier):
+        def rows(self, tier):
             for kind in self.dim("kind").values:
                 for n in self.NS:
                     if tier == "quick" and kind != "tag" and n > 15002:
@@ -219,7 +221,7 @@ def register(gen):
             w.end()
             return Case(w.getvalue(), "o5m", model.dump(False, {}, [], objs), nt=True, tri=tri)
 
-        def plan(self, tier):
+        def rows(self, tier):
             lo, hi = (246, 256) if tier == "quick" else (200, 300)
             for kind, split in (("tag", "even"), ("tag", "keylong"), ("tag", "vallong"), ("user", "even"), ("role", "even")):
                 for total in range(lo, hi + 1):
@@ -247,54 +249,64 @@ def register(gen):
         return p
 
     class Perm(Family):
-        """every order of the attributes / fields of one node"""
+        """every order of the attributes / fields of one node: level few = 7, std = 8, all = 9 of them"""
 
-        def __init__(self, fmt, names_auto, names_always):
+        def __init__(self, fmt, names):
             self.name, self.fmt = fmt + "-perm", fmt
-            self.names = {"auto": names_auto, "always": names_always}
-            self.dims = [Dim("p", ["0"], kind="perm"), Dim("vis", ["auto", "always"])]
+            self.names = names
+            self.dims = [Dim("p", ["0"], kind="perm"), Dim("level", ["few", "std", "all"])]
 
-        def _choices(self, c):
-            if self.fmt == "xml":
-                return {"attrs": "perm:" + c["p"], "visible": c["vis"]}
-            return {"order": "perm:" + c["p"], "optional": "sparse" if c["vis"] == "auto" else "full"}
+        @staticmethod
+        def level(c):
+            return c["level"]
 
         def build(self, c):
             c = self.full(c)
-            ds = model.dataset("single_full")
+            lv = c["level"]
+            ds = model.dataset("single_nouser" if lv == "few" else "single_full")
             enc = {"xml": enc_xml, "opl": enc_opl}[self.fmt]
-            ch = self._choices(c)
+            if self.fmt == "xml":
+                ch = {"attrs": "perm:" + c["p"], "visible": "always" if lv == "all" else "auto", "optattrs": "sparse" if lv == "few" else "full"}
+            else:
+                ch = {"order": "perm:" + c["p"], "optional": "full" if lv == "all" else "sparse"}
             multi, opts, boxes = enc.expect(ds, ch)
             return Case(enc.encode(ds, ch), "osm" if self.fmt == "xml" else "osm.opl", model.dump(multi, opts, boxes, ds["objects"]), nt=c["p"] != "0")
 
-        def plan(self, tier):
-            n = len(self.names["auto"])
-            f = 1
-            for k in range(2, n + 1):
-                f *= k
-            for p in range(f):
-                yield {"p": str(p)}
-            if tier == "thorough":
-                for p in range(f * (n + 1)):
-                    yield {"p": str(p), "vis": "always"}
+        def rows(self, tier):
+            for lv in (["few"] if tier == "quick" else ["few", "std", "all"]):
+                f = 1
+                for k in range(2, len(self.names[lv]) + 1):
+                    f *= k
+                for p in range(f):
+                    yield {"p": str(p), "level": lv}
 
         def reduce(self, c, kind, ask):
             """move the failing permutation towards the canonical order by adjacent swaps as long as it still fails;
-            the class is named by the inversions that remain"""
+            the class is named by the inversions that remain (a<b: a is written before b although b comes first in the
+            canonical order); any order that contains these inversions belongs to the class"""
+            if "p" not in c:
+                return c, "p", "", None
             full = self.full(c)
-            names = self.names[full["vis"]]
-            perm = nth_perm(int(full["p"]), len(names))
+            names = self.names[self.level(full)]
+            n = len(names)
+            perm = nth_perm(int(full["p"]), n)
             changed = True
             while changed:
                 changed = False
-                for i in range(len(perm) - 1):
+                for i in range(n - 1):
                     if perm[i] > perm[i + 1]:
                         t = perm[:i] + [perm[i + 1], perm[i]] + perm[i + 2:]
                         c2 = dict(c, p=str(rank_of(t)))
                         if ask(c2) == kind:
                             perm, c, changed = t, c2, True
-            inv = ["%s<%s" % (names[perm[i]], names[perm[j]]) for i in range(len(perm)) for j in range(i + 1, len(perm)) if perm[i] > perm[j]]
-            return c, "order(" + (",".join(inv) if inv else "canonical") + ")"
+            inv = set((perm[i], perm[j]) for i in range(n) for j in range(i + 1, n) if perm[i] > perm[j])
+            label = "order(" + ",".join("%s<%s" % (names[a], names[b]) for a, b in sorted(inv)) + ")"
+
+            def member(v):
+                q = nth_perm(int(v), n)
+                pos = {x: i for i, x in enumerate(q)}
+                return label if all(pos[a] < pos[b] for a, b in inv) else None
+            return c, "p", label, member
 
     # --------------------------------------------------------------------------------------------
     O5M_HEAD = b"\xff\xe0\x04o5m2"
@@ -360,7 +372,7 @@ def register(gen):
             data, suffix, (multi, opts, boxes) = TINY[c["file"]]()
             return Case(data, suffix, model.dump(multi, opts, boxes, []), nt=False)
 
-        def plan(self, tier):
+        def rows(self, tier):
             for k in self.dim("file").values:
                 yield {"file": k}
 
@@ -406,15 +418,69 @@ def register(gen):
         def build(self, c):
             return self.group(c)[0][1]
 
-        def plan(self, tier):
+        def rows(self, tier):
             for ds in model.COMMON:
                 for p in PROFILES:
                     yield {"ds": ds, "profile": p}
 
+    # --------------------------------------------------------------------------------------------
+    class PbfSize(Family):
+        """a blob whose uncompressed content is `below` bytes under the 32 MiB limit ("must be less than 32 MiB"),
+        padded with one unknown length-delimited field (number 15) in the PrimitiveBlock / HeaderBlock"""
+        name, fmt = "pbf-size", "pbf"
+        LIMIT = 32 * 1024 * 1024
+
+        def __init__(self):
+            self.dims = [Dim("below", [65536], kind="range"), Dim("blob", ["raw", "raw+size", "zlib", "lz4"]), Dim("where", ["data", "header"])]
+            self.dim("below").lo, self.dim("below").hi = 1, self.LIMIT - 4096
+            self.dim("below").classify = lambda v: ("within-16-bytes-of-32MiB" if int(v) <= 16 else
+                                                    "between-16MiB-and-32MiB" if int(v) < 16 * 1024 * 1024 else "at-most-16MiB")
+
+        def build(self, c):
+            c = self.full(c)
+            target = self.LIMIT - int(c["below"])
+            ds = model.dataset("single_full")
+            cc = enc_pbf.resolve({"blob": c["blob"]})
+            hb = enc_pbf.header_block(ds, cc, True)
+            pb = enc_pbf._primitive_block(ds["objects"], cc, False)
+            base = pb if c["where"] == "data" else hb
+            room = target - len(base)
+            pad = None
+            for lenlen in (1, 2, 3, 4, 5):
+                L = room - 1 - lenlen
+                if L >= 0 and len(enc_pbf.varint(L)) == lenlen:
+                    pad = enc_pbf.f_bytes(15, bytes(L))
+            if pad is None:
+                raise NotEncodable("no padding of that size")
+            if c["where"] == "data":
+                pb = pad + pb
+                assert len(pb) == target
+            else:
+                hb = hb + pad
+                assert len(hb) == target
+            data = enc_pbf.frame("OSMHeader", hb, cc) + enc_pbf.frame("OSMData", pb, cc)
+            multi, opts, boxes = enc_pbf.expect(ds, {"blob": c["blob"]})
+            tri = ""
+            if c["blob"] in ("raw", "raw+size") and len(enc_pbf.blob(pb if c["where"] == "data" else hb, cc)) >= self.LIMIT:
+                # the content is below the limit, the Blob message around it is not: the description ("the uncompressed
+                # length of a Blob must be less than 32 MiB") can be read either way
+                tri = "pbf-raw-blob-message>=32MiB"
+            return Case(data, "osm.pbf", model.dump(multi, opts, boxes, ds["objects"]), nt=True, tri=tri)
+
+        def rows(self, tier):
+            belows = [1, 5, 6, 11, 4096, 16 * 1024 * 1024 - 1] if tier == "quick" else list(range(1, 14)) + [100, 4096, 16 * 1024 * 1024 - 1, 16 * 1024 * 1024]
+            for where in (["data"] if tier == "quick" else ["data", "header"]):
+                for blob in self.dim("blob").values:
+                    for b in belows:
+                        yield {"below": str(b), "blob": blob, "where": where}
+
     gen.FAMILIES.update({
+        "pbf-size": PbfSize(),
         "o5m-tail": O5mTail(), "o5m-table": O5mTable(), "o5m-len": O5mLen(),
-        "xml-perm": Perm("xml", ["id", "version", "timestamp", "uid", "user", "changeset", "lat", "lon"],
-                         ["id", "version", "timestamp", "uid", "user", "changeset", "visible", "lat", "lon"]),
-        "opl-perm": Perm("opl", ["v", "c", "t", "i", "u", "T", "x", "y"], ["v", "d", "c", "t", "i", "u", "T", "x", "y"]),
+        "xml-perm": Perm("xml", {"few": ["id", "version", "timestamp", "uid", "changeset", "lat", "lon"],
+                                 "std": ["id", "version", "timestamp", "uid", "user", "changeset", "lat", "lon"],
+                                 "all": ["id", "version", "timestamp", "uid", "user", "changeset", "visible", "lat", "lon"]}),
+        "opl-perm": Perm("opl", {"few": ["v", "c", "t", "i", "T", "x", "y"], "std": ["v", "c", "t", "i", "u", "T", "x", "y"],
+                                 "all": ["v", "d", "c", "t", "i", "u", "T", "x", "y"]}),
         "tiny": Tiny(), "agree": Agree(),
     })
